@@ -1,4 +1,5 @@
-"""C01 (passes) — the always-on AST rewriting passes: model coq/c01/Passes_*.v, theorems Properties_C01p.v.
+"""C01 (passes) — the always-on AST rewriting passes: model coq/c01/Passes_*.v, theorems Properties_C01p.v
+(constant evaluator: Passes_CEval_C01.v relation + simulation, Passes_CEvalFn_C01.v function-level theorems).
 
 run_passes(ck) is called from checks/c01.py.  It
  (G) re-derives from the Rust source, on every run, which side conditions (guards) each modelled pass checks
@@ -165,7 +166,9 @@ class G:
                 return ("var", r.choice(vs))
             return ("num", r.randint(0, 9))
         if k < 0.24:
-            return ("prim", "+", [self.expr(d - 1, env), self.expr(d - 1, env)])
+            # `+` is a global the constant evaluator knows nothing about; `#%prim.+` is the same procedure under the name
+            # it folds calls of (constant = true) when both operands are constants
+            return ("prim", "+" if r.random() < 0.6 else "#%prim.+", [self.expr(d - 1, env), self.expr(d - 1, env)])
         if k < 0.31:
             return ("app", ("var", "y"), [self.expr(d - 1, env), self.expr(d - 1, env)])
         if k < 0.36:
@@ -322,7 +325,7 @@ def to_coq(t, bound, ast=False):
     if k == "begin":
         return "(Begin %s)" % exps_coq(t[1], bound, ast)
     if k == "prim":
-        op = {"+": "PAdd", "display": "PDisplay", "const-list": "PConstList"}[t[1]]
+        op = {"+": "PAdd", "display": "PDisplay", "const-list": "PConstList", "#%prim.+": "PAddC"}[t[1]]
         return "(Prim %s %s)" % (op, exps_coq(t[2], bound, ast))
     if k == "setp" and ast:
         x = t[1]
@@ -430,6 +433,8 @@ class Canon:
         if h == "set!":
             return ("set", self.go(x[1], env), self.go(x[2], env))
         if isinstance(h, str):
+            if h == "#%prim.+":
+                return ("prim", h, [self.go(e, env) for e in x[1:]])
             hh = re.sub(r"^#%prim\.", "", h)
             if hh in ("#%const-list", "const-list"):
                 return ("prim", "const-list", [self.go(e, env) for e in x[1:]])
@@ -499,6 +504,16 @@ WITNESSES = [
     ("duplicate parameter, constant first", "(define (f k) ((lambda (a a) a) 1 k)) (f 7)", "7", ""),
     ("duplicate parameter, constant last", "(define (f k) ((lambda (a a) a) k 1)) (f 7)", "1", ""),
     ("duplicate let binder", "(define (f k) (let ((a 1) (a k)) a)) (f 7)", "7", ""),
+    # 5b062f5b: a constant vector was put back as a quoted LIST; a constant improper pair stopped the compilation
+    ("constant vector operand returned", "(define (f k) (vector? ((lambda (x y) x) '#(1 2) k))) (f 0)", "#t", ""),
+    ("constant vector from a folded primitive", "(define (f) (vector? (#%prim.push 1 2))) (f)", "#t", ""),
+    ("constant improper pair returned", "(define (f k) (car ((lambda (x y) x) '(1 . 2) (display 3)))) (f 0)", "1", "3"),
+    # a keyword as a test was decided FALSE (is_constant said constant, is_truthy_constant said not truthy)
+    ("keyword as a test", "(define (f k) (if #:kw 1 k)) (f 2)", "1", ""),
+    # the remembered operand list of a const-list binding was used although the variable is assigned
+    ("length of an assigned rest parameter", "(define (f k) ((lambda (a . r) (begin (set! r '()) (#%prim.length r))) 1 k k)) (f 2)", "0", ""),
+    # effects of the non-constant operands keep their order in (begin operands.. 'value)
+    ("begin result keeps the order of effects", "(define (f k) ((lambda (x y z) 5) (display 1) 2 (display 3))) (f 2)", "5", "13"),
 ]
 
 
@@ -521,7 +536,12 @@ def run_passes(ck):
     quick = ck.tier == "quick"
     ck.cov["trusted_base"].append(
         "passes: checks/c01_passes.py (guard extraction by source fragments, program generator, printers, alpha-normalising reader), "
-        "harness passdump (Engine::emit_fully_expanded_ast); coq/c01/Passes_Model_C01.v is a hand-written mirror of the cited Rust lines")
+        "harness passdump (Engine::emit_fully_expanded_ast); coq/c01/Passes_Model_C01.v is a hand-written mirror of the cited Rust lines; "
+        "proved meaning preserving: flatten, plain_let, prune_if, ceval (constant evaluator: propagation, scope / binding dropping, "
+        "(begin operands.. 'value), folding of #%prim.+); modelled for the AST correspondence only (no theorem): uniq "
+        "(RenameShadowedVariables), rlets (RemoveLetsBoundToOtherLocalVars), the Glob/SetG writing of assigned parameters; "
+        "not modelled: define in a body, const-list length folding, folding of the other `constant = true` primitives, "
+        "vector / pair / keyword constants (engine-level regression witnesses only)")
     # (G) generated facts
     try:
         g = source_guards()
